@@ -119,6 +119,31 @@ def gen_links(tier, seed, rels):
                     ndL = min(line) - 500
                     o = with_y(c, encode(line, miss, ndL), ndL)
                     links.append({"rel": rel, "line": [str(v) for v in line], "base": o, "other": o})
+    if "reverse" in rels:
+        # selection-sensitive inputs: fine grid, short series, near-tie V-curves; equal outputs are accepted
+        # without any exact solve, so many of these are cheap
+        from .. import families
+        fgrid = [-2.0 + 0.2 * k for k in range(31)]
+        for i in range(120 if quick else 1200):
+            variant = "v" if i % 4 else rng.choice(["vp", "vplc"])
+            n = rng.choice([4, 5, 6, 8, 10])
+            ys = families.find(rng, "vnear", fgrid, n_choices=(5, 6, 8), tries=60) if i % 3 == 0 else None
+            if ys is None:
+                ys = [rng.randint(0, 200) if rng.random() > 0.15 else -3000 for _ in range(n)]
+                if sum(v != -3000 for v in ys) < 2:
+                    continue
+            c = {"variant": variant, "op": OP[variant], "api": "kernel", "grid": [sc.fl(g) for g in fgrid]}
+            if variant != "v":
+                c["p"] = sc.fl(0.9)
+            if variant == "vplc":
+                c["lc"] = sc.fl(rng.choice([0.2, 0.8]))
+            base = with_y(c, ys, -3000)
+            rel = rng.choice(["reverse", "reverse", "shift"])
+            if rel == "reverse":
+                links.append({"rel": "reverse", "base": base, "other": with_y(c, ys[::-1], -3000)})
+            else:
+                sh = rng.choice([-50, 7, 300])
+                links.append({"rel": "shift", "shift": sh, "base": base, "other": with_y(c, [v + sh for v in ys], -3000 + sh)})
     return links
 
 
